@@ -233,16 +233,16 @@ static void run_case(Rng& r, Ctx& c)
     std::string hist = !anyOptim ? "first" : (prevEmpty ? "after-empty" : "after-ok");
     // one key per root cause: (a) stale state after an empty request (fixed in /repo 03007d492; the class keeps its key),
     // (b) CovCalcMode active-structure list ignored by both optimised builders (open), else (kind, mode, history)
-    std::string key  = prevEmpty ? std::string("C04:covopt:stale-after-empty-request")
-                                 : (rq.modeKind == 5 ? std::string("C04:covopt:active-cov-list-ignored")
+    std::string key  = rq.modeKind == 5 ? std::string("C04:covopt:active-cov-list-ignored")
+                                        : (prevEmpty ? std::string("C04:covopt:stale-after-empty-request")
                                                      : "C04:covopt:" + kind + ":mode=" + MODEN[rq.modeKind] + ":hist=" + hist);
     std::string what = fmt("req#%d %s db1=%d(n=%d) db2=%d ivar0=%d jvar0=%d nb1=%s nb2=%s mode=%s hist=%s staleAfter=%d", q,
                            kind.c_str(), rq.d1, n1, rq.d2, rq.ivar0, rq.jvar0, vi(rq.nb1).c_str(), vi(rq.nb2).c_str(),
                            MODEN[rq.modeKind], hist.c_str(), (int)staleState);
     // separate oracle names for the two classes with a known cause, so that the calibration numbers (max err/tol) of
     // the healthy classes stay readable in the evidence
-    std::string oname = prevEmpty ? std::string("covopt-after-empty")
-                                  : (rq.modeKind == 5 ? std::string("covopt-active-list") : std::string("covopt-") + kind);
+    std::string oname = rq.modeKind == 5 ? std::string("covopt-active-list")
+                                         : (prevEmpty ? std::string("covopt-after-empty") : std::string("covopt-") + kind);
     bool isEmpty      = (want.getNRows() == 0 || want.getNCols() == 0);
 
     if (!thrown.empty())
